@@ -27,6 +27,7 @@ static inline uint64_t gmix(uint64_t x) { x ^= x >> 33; x *= 0xff51afd7ed558ccdU
 static void gen_fill(uint64_t key, uint64_t off, unsigned char *b, size_t n) { size_t i = 0; while (i < n) { uint64_t blk = (off + i) >> 3, v = gmix(key + blk * 0x9E3779B97F4A7C15ULL); unsigned sh = (unsigned)((off + i) & 7); while (sh < 8 && i < n) { b[i++] = (unsigned char)(v >> (8 * sh)); sh++; } } }
 static int gen_check(uint64_t key, uint64_t off, const unsigned char *b, size_t n) { static __thread unsigned char tmp[65536]; size_t done = 0; while (done < n) { size_t c = n - done < sizeof tmp ? n - done : sizeof tmp; gen_fill(key, off + done, tmp, c); if (memcmp(tmp, b + done, c)) { size_t j; for (j = 0; j < c; j++) if (tmp[j] != b[done + j]) return (int)(done + j) + 1; } done += c; } return 0; }
 
+static long long st_udp_empty;
 static long long st_tcp_sessions, st_tcp_bytes, st_udp_sessions, st_udp_datagrams, st_udp_lost, st_udp_truncated, st_wouldblock_seen, st_peer_gone;
 static long st_inj[W_N][4];
 
@@ -128,7 +129,7 @@ static void udp_session(vh_rng *r, int v6, int count, int density, int kinds) {
 	p_socket_set_timeout(rx, 300); p_socket_set_timeout(tx, 5000);
 	set_plans(r, density, kinds & ~WK_SHORT);
 	for (i = 0; i < count && vh_nviol < vh_max_viol; i++) {
-		size_t len = vh_chance(r, 10) ? maxd - vh_below(r, 3) : vh_chance(r, 40) ? 1 + vh_below(r, 64) : 1 + vh_below(r, maxd), blen = vh_chance(r, 30) ? 1 + vh_below(r, len + 10) : maxd; PError *err = NULL; pssize n; PSocketAddress *from = NULL; size_t exp;
+		size_t len = vh_chance(r, 10) ? maxd - vh_below(r, 3) : vh_chance(r, 6) ? 0 /* an empty datagram is a datagram */ : vh_chance(r, 40) ? 1 + vh_below(r, 64) : 1 + vh_below(r, maxd), blen = vh_chance(r, 30) ? 1 + vh_below(r, len + 10) : maxd; PError *err = NULL; pssize n; PSocketAddress *from = NULL; size_t exp;
 		gen_fill(key + (uint64_t)i, 0, sb, len);
 		n = p_socket_send_to(tx, ra, (pchar *)sb, len, &err);
 		if (n != (pssize)len) { char sym[96]; snprintf(sym, sizeof sym, "send_to-error code=%d errno=%d", err ? p_error_get_code(err) : 0, err ? p_error_get_native_code(err) : 0); viol(sym, "blocking send_to of %zu bytes returned %zd", len, (ssize_t)n); p_error_free(err); break; }
@@ -136,7 +137,10 @@ static void udp_session(vh_rng *r, int v6, int count, int density, int kinds) {
 		n = p_socket_receive_from(rx, &from, (pchar *)rb, blen, &err);
 		if (n < 0) {
 			int code = err ? p_error_get_code(err) : 0;
-			if (code == P_ERROR_IO_TIMED_OUT) { st_udp_lost++; p_error_free(err); continue; }     /* loss is allowed */
+			if (code == P_ERROR_IO_TIMED_OUT) {     /* loss is allowed in general; but this receiver's queue was empty (1 MiB buffer) and the datagram went over loopback */
+				st_udp_lost++; p_error_free(err);
+				if (len == 0 && !w_injected(W_RECVFROM) && !w_injected(W_POLL)) { viol("empty-datagram-never-received", "an empty datagram sent over loopback to a socket with an empty queue was never returned by receive_from (300 ms)"); break; }
+				continue; }
 			{ char sym[96]; snprintf(sym, sizeof sym, "receive_from-error code=%d errno=%d", code, err ? p_error_get_native_code(err) : 0); viol(sym, "blocking receive_from failed"); } p_error_free(err); break;
 		}
 		exp = len < blen ? len : blen; if (exp < len) st_udp_truncated++;
@@ -147,7 +151,7 @@ static void udp_session(vh_rng *r, int v6, int count, int density, int kinds) {
 		else { pchar *t1 = p_socket_address_get_address(from), *t2 = p_socket_address_get_address(sa_local);
 			if (p_socket_address_get_port(from) != p_socket_address_get_port(sa_local) || !t1 || !t2 || strcmp(t1, t2) || p_socket_address_get_family(from) != p_socket_address_get_family(sa_local)) viol("sender-address-wrong", "receive_from reported %s:%u, the sender is %s:%u", t1 ? t1 : "?", p_socket_address_get_port(from), t2 ? t2 : "?", p_socket_address_get_port(sa_local));
 			p_free(t1); p_free(t2); p_socket_address_free(from); }
-		st_udp_datagrams++; __atomic_add_fetch(&progress, 1, __ATOMIC_RELAXED);
+		st_udp_datagrams++; if (len == 0) st_udp_empty++; __atomic_add_fetch(&progress, 1, __ATOMIC_RELAXED);
 	}
 	collect_inj(); w_reset(); st_udp_sessions++;
 	free(sb); free(rb); p_socket_free(rx); p_socket_free(tx); p_socket_address_free(la); p_socket_address_free(la2); p_socket_address_free(ra); p_socket_address_free(sa_local);
@@ -240,8 +244,8 @@ int main(int argc, char **argv) {
 	for (i = 0; i < 4 && vh_nviol < vh_max_viol; i++) half_close(&r, i & 1);
 	if (!vh_flag(argc, argv, "--no-peer-gone")) { peer_gone(0, 0, 0); peer_gone(1, 0, 0); peer_gone(0, 1, 0); peer_gone(1, 1, 0); peer_gone(0, 0, 1); peer_gone(1, 0, 1); }
 	p_libsys_shutdown();
-	printf("{\"ev\":\"stats\",\"tcp_sessions\":%lld,\"tcp_bytes\":%lld,\"udp_sessions\":%lld,\"udp_datagrams\":%lld,\"udp_lost\":%lld,\"udp_truncated\":%lld,\"wouldblock_seen_nonblocking\":%lld,\"peer_gone_cases\":%lld,\"half_close_exchanges\":%lld,\"injected\":{",
-	       st_tcp_sessions, st_tcp_bytes, st_udp_sessions, st_udp_datagrams, st_udp_lost, st_udp_truncated, st_wouldblock_seen, st_peer_gone, st_halfclose);
+	printf("{\"ev\":\"stats\",\"tcp_sessions\":%lld,\"tcp_bytes\":%lld,\"udp_sessions\":%lld,\"udp_datagrams\":%lld,\"udp_lost\":%lld,\"udp_truncated\":%lld,\"wouldblock_seen_nonblocking\":%lld,\"peer_gone_cases\":%lld,\"half_close_exchanges\":%lld,\"empty_datagrams\":%lld,\"injected\":{",
+	       st_tcp_sessions, st_tcp_bytes, st_udp_sessions, st_udp_datagrams, st_udp_lost, st_udp_truncated, st_wouldblock_seen, st_peer_gone, st_halfclose, st_udp_empty);
 	{ int first = 1; for (id = 0; id < W_N; id++) if (st_inj[id][0] + st_inj[id][1] + st_inj[id][2] + st_inj[id][3]) { printf("%s\"%s\":[%ld,%ld,%ld,%ld]", first ? "" : ",", w_names[id], st_inj[id][0], st_inj[id][1], st_inj[id][2], st_inj[id][3]); first = 0; } }
 	printf("},\"viol\":%d,\"wall\":%.2f}\n", vh_nviol, vh_now() - t0);
 	return 0;
